@@ -1,7 +1,7 @@
 //@ if poll_reg_real
-//@ item src/sys.rs / impl Poll / fn register props=C16,C02 ret=r
+//@ item src/sys.rs / impl Poll / fn register props=C16,C02,C07 ret=r
 //@ else
-//@ item src/sys.rs / impl Poll / fn register props=C16,C02 sigonly ret=r
+//@ item src/sys.rs / impl Poll / fn register props=C16,C02,C07 sigonly ret=r
 //@ endif
 //@ spec
 //@ if poll_reg_real
@@ -16,9 +16,9 @@
             r is Ok ==> self.pl().w_added(crate::polling::fd_raw(&fd), expected_event(interest, token), spec_cvt_mode(mode, self.pl().spec_supports_level())),
 //@ enditem
 //@ if poll_reg_real
-//@ item src/sys.rs / impl Poll / fn reregister props=C16,C02 ret=r
+//@ item src/sys.rs / impl Poll / fn reregister props=C16,C02,C07 ret=r
 //@ else
-//@ item src/sys.rs / impl Poll / fn reregister props=C16,C02 sigonly ret=r
+//@ item src/sys.rs / impl Poll / fn reregister props=C16,C02,C07 sigonly ret=r
 //@ endif
 //@ spec
 //@ if poll_reg_real
@@ -30,10 +30,10 @@
             r is Ok ==> self.pl().w_modified(crate::polling::fd_raw(&fd), expected_event(interest, token), spec_cvt_mode(mode, self.pl().spec_supports_level())),
 //@ enditem
 //@ if poll_reg_real
-//@ item src/sys.rs / impl Poll / fn unregister props=C16 ret=r
+//@ item src/sys.rs / impl Poll / fn unregister props=C16,C07 ret=r
 //@ rw R2 * <<|_, (source, _)| *source != raw>> => <<|_k, _v| _v.0 != raw>>
 //@ else
-//@ item src/sys.rs / impl Poll / fn unregister props=C16 sigonly ret=r
+//@ item src/sys.rs / impl Poll / fn unregister props=C16,C07 sigonly ret=r
 //@ endif
 //@ spec
 //@ if poll_unreg_guarded
